@@ -173,13 +173,15 @@ let handle_smtp (kind : string) (ins : string list) (outs : string list) : bool 
              let o = { t_mail = parse_mail_table pip mt; t_rcpt = parse_rcpt_table pip mode rt; t_mail_hook = mh;
                        t_rcpt_hook = rh; t_hdr = parse_hdr_table ht; t_msg_hook = gh } in
              let impl_replies = String.split_on_char '|' replies in
-             let par = kind = "luapar" in
+             let par = kind = "luapar" || kind = "smtppar" || kind = "smtprm" in
              let v = ref [] in
              let add x = if not (List.mem x !v) then v := x :: !v in
              let m_replies = ref [] and m_deliv = ref [] and ent_all = ref [] in
              (* with failing writes: the deliveries of the one block the client had transmitted but not seen acknowledged *)
              let extra_alt = ref None in
              List.iteri (fun idx stream ->
+               (* smtprm: another client removes everything the earlier sessions stored: only the last one's deliveries stay *)
+               if kind = "smtprm" then begin ent_all := []; m_deliv := [] end;
                (* stream field: hex chunks separated by '~' (a pause longer than the idle timeout), optionally
                   "!idle" / "!err" for how the connection ends; a plain hex field is one chunk ended by EOF *)
                (* "^k": the server's writes fail after k reply lines (greeting included) *)
@@ -280,7 +282,7 @@ let handle_smtp (kind : string) (ins : string list) (outs : string list) : bool 
          | _ -> Mlutil.print_model ["NO-OBSERVATION"] "fail:no-observation"); true in
   match ins with
   | [naming; maxr; maxb; da; acc; rej; ds; sto; dis; rejo; _store; stream] ->
-      go naming maxr maxb da acc rej ds sto dis rejo [stream] ([], [], [])
+      go naming maxr maxb da acc rej ds sto dis rejo (String.split_on_char '+' stream) ([], [], [])
   | [naming; maxr; maxb; da; acc; rej; ds; sto; dis; rejo; _store; streams; _script; ml; rl; msl] ->
       go naming maxr maxb da acc rej ds sto dis rejo (String.split_on_char '+' streams)
         (parse_smtp_rules ml, parse_smtp_rules rl, parse_msg_rules msl)
